@@ -3,17 +3,12 @@ Helper lemmas for C02, part 1: one reduction. The listener calls of `LRX.applyRu
 from stack entries) coincide with the report / own-node events that `Events.layout` computes from
 the children's ranges.
 -/
-import TmVerif.Model.Events
+import TmVerif.Model.EventsWF
 namespace TmVerif.Events
 open TmVerif.LR TmVerif.LRX
 
 /-- the range of a stack entry -/
 def rng (e : Entry) : Nat × Nat := (e.off, e.endo)
-
-/-- every report range of every rule is ordered (`start ≤ stop`); decidable, evaluated by the driver
-on the real tables. -/
-def reportsWF (x : XTables) : Bool :=
-  x.rules.toList.all fun info => info.reports.all fun r => decide (r.start ≤ r.stop)
 
 theorem reportsWF_get {x : XTables} (h : reportsWF x = true) {i : Nat} {info : RuleInfo}
     (hi : x.rules[i]? = some info) {r : Report} (hr : r ∈ info.reports) : r.start ≤ r.stop := by
